@@ -493,6 +493,57 @@ def join_contracts():
     return cs
 
 
+class _materialise:
+    """to_list delegate on a lazy value: the tuple of what is left of it
+    (pulls it to its end, as the real toList does)."""
+    is_factory = True
+
+    def __call__(self, name, path):
+        from vlib.pyvc.interp import Model
+        from vlib.pyvc import sym as S
+
+        def to_list(x):
+            if isinstance(x, S.SIter):
+                rest = x.remaining()
+                x.pos = x.seq.length
+                return S.SSeq(rest.length, rest.arr, rest.elem, rest.off,
+                              kind='tuple')
+            return x
+        return Model(name, to_list)
+
+
+def slice_contracts():
+    """slice(length): consecutive chunks of `length` elements (the last one
+    shorter), each emitted as soon as its own elements have been pulled.
+    One contract per concrete chunk length (keeps the arithmetic linear)."""
+    cs = []
+    for L in (1, 2, 3):
+        inv = ['SRC.pos == min(%d * len(out), len(SRC.seq))' % L,
+               'implies(len(out) >= 1, %d * (len(out) - 1) < len(SRC.seq))'
+               % L,
+               'forall(range(0, len(out)), lambda k: yoff[k] == %d * k and '
+               'ylen[k] == min(%d, len(SRC.seq) - %d * k) and pulls[k] == '
+               'min(%d * (k + 1), len(SRC.seq)))' % (L, L, L, L)]
+        cs.append(Contract(
+            Q + 'slice_', name='queries.slice_/%d' % L,
+            params=dict(collection=TIter(TVal), length=L,
+                        to_list=_materialise()),
+            track_pulls='collection', track_slices=True,
+            ensures=[
+                # as many chunks as needed to cover the source, in order
+                '%d * len(out) >= len(SRC.seq) and implies(len(out) >= 1, '
+                '%d * (len(out) - 1) < len(SRC.seq))' % (L, L),
+                'forall(range(0, len(out)), lambda k: yoff[k] == %d * k and '
+                'ylen[k] == min(%d, len(SRC.seq) - %d * k))' % (L, L, L),
+                # streaming: chunk k needs the elements up to its own end
+                'forall(range(0, len(out)), lambda k: pulls[k] == '
+                'min(%d * (k + 1), len(SRC.seq)))' % L],
+            loops=[dict(anchor='while True', invariant=inv,
+                        havoc={'res': TSeq(TVal)})],
+            serves=('C13', 'C14'), native=False))
+    return cs
+
+
 def setup_mem(world):
     setup(world)
     world.callee_contract('yaql.language.utils.limit_memory_usage')
